@@ -15,6 +15,7 @@
 package event
 
 import (
+	stdbinary "encoding/binary"
 	"errors"
 
 	"github.com/emitter-io/emitter/internal/message"
@@ -25,6 +26,9 @@ import (
 
 // errInvalidKey is returned for a replicated key which is too short to hold a peer and a connection.
 var errInvalidKey = errors.New("event: invalid key")
+
+// errInvalidValue is returned for a replicated value whose fields do not fit into it.
+var errInvalidValue = errors.New("event: invalid value")
 
 // Various replicated event types.
 const (
@@ -100,6 +104,26 @@ func decodeSubscription(k string, v []byte) (e Subscription, err error) {
 	return e, err
 }
 
+// connectionFits checks that the length announced by each of the four byte fields of an
+// encoded connection (after the will flag, the retain flag and the QoS) fits into the value.
+// The decoder allocates a field from its announced length before it reads it, and the value
+// comes from the replicated state, which other brokers write.
+func connectionFits(v []byte) bool {
+	offset := 3
+	for field := 0; field < 4; field++ {
+		if offset > len(v) {
+			return false
+		}
+
+		size, n := stdbinary.Uvarint(v[offset:])
+		if n <= 0 || size > uint64(len(v)-offset-n) {
+			return false
+		}
+		offset += n + int(size)
+	}
+	return true
+}
+
 // ------------------------------------------------------------------------------------
 
 // Ban represents a banned key event.
@@ -162,6 +186,10 @@ func (e Connection) Val() []byte {
 // decodeConnection decodes the event
 func decodeConnection(k string, v []byte) (e Connection, err error) {
 	if len(v) > 0 {
+		if !connectionFits(v) {
+			return e, errInvalidValue
+		}
+
 		err = binary.Unmarshal(v, &e)
 	}
 
